@@ -54,6 +54,10 @@ def gen_api_desc(rng, nasty_attrs):
                 if n[0] == "S" and rng.random() < 0.3:
                     # a span with an alignment / colour of its own (next to whatever layout it carries)
                     n[2] = dict(n[2], **rng.choice([{"text-align": "center"}, {"text-align": "right", "color": "yellow"}, {"color": "#00ff00"}]))
+                    if nasty_attrs and rng.random() < 0.6:
+                        # XML metacharacters in the attribute values of a hand-built <span>
+                        n[2] = dict(n[2], **rng.choice([{"font-family": '"Courier New", monospace'}, {"color": 'a"b'}, {"font-family": "R&D <sans>"},
+                                                        {"color": "it's"}]))
             if rng.random() < 0.4:
                 c["style"] = {"class": rng.choice(["p", "b1", "cls"]), "color": rng.choice(["white", "#ff0000"]), "font-family": rng.choice(["Arial", "monospace"])}
     d["styles"] = rng.choice([{}, {"p": {"color": "white", "font-size": "10pt"}}, {"p": {"text-align": "center"}, "b1": {"italics": True, "font-family": "Arial"}, "cls": {"color": "#00ff00"}}])
